@@ -150,6 +150,7 @@ def run_check(pid: str, tier: str, seed: int) -> int:
             new_classes[c] = vs
     exit_code = 0
     replays = []
+    unstable = []
     rdir = os.path.join(ROOT, "replays", pid)
     if not by_class and os.path.exists(os.path.join(rdir, "_all.json")):
         os.remove(os.path.join(rdir, "_all.json"))
@@ -185,11 +186,15 @@ def run_check(pid: str, tier: str, seed: int) -> int:
             exit_code = 1
             replays.append(path)
         else:
-            print(f"harness error: violation class {c!r} did not reproduce identically in fresh processes")
+            # not an alarm: the same history has to fail every time before it is reported
+            unstable.append(c)
+            print(f"note: class {c!r} did not reproduce identically in fresh processes (not reported)")
             for code, out in codes:
-                print(f"  replay exit {code}: {out[-500:]}")
+                print(f"  replay exit {code}: {out[-300:]}")
             print(f"  file: {path}")
-            return 2
+    if unstable and exit_code == 0:
+        print(f"harness error: {len(unstable)} violation class(es) did not reproduce identically and none did; no verdict")
+        return 2
     stale = []
     for f in kf.get("findings", []):
         if f["property"] != pid and pid not in f.get("also_in", []):
@@ -218,6 +223,7 @@ def run_check(pid: str, tier: str, seed: int) -> int:
         "known_findings_matched": {k: v[1] for k, v in matched.items()},
         "stale_findings": stale,
         "new_violation_replays": replays,
+        "unstable_classes_not_reported": unstable,
         "tasks": len(tasks),
         "workers": nproc,
         "regime": desc.get("regime", "tree"),
